@@ -173,6 +173,23 @@ class Engine:
             if self.decide(term == v):
                 return v
 
+    def determined_value(self, term):
+        """If the path condition fixes the value of `term`, return it (Fraction); otherwise None."""
+        term = z3.simplify(term)
+        if is_num(term):
+            return term.as_fraction()
+        key = 'det:' + term.sexpr()
+        if key in self.memo and self.memo[key][0] == len(self.pc):
+            return self.memo[key][1]
+        m = self._refresh_model()
+        v = m.eval(term, model_completion=True)
+        if not is_num(v):
+            return None
+        r, _ = self._check(term != v)
+        out = v.as_fraction() if r == z3.unsat else None
+        self.memo[key] = (len(self.pc), out)
+        return out
+
     def fresh(self, name, sort='real'):
         self.n_fresh += 1
         nm = '%s!%d' % (name, self.n_fresh)
@@ -226,6 +243,7 @@ class Engine:
             self.memo = {}
             self.model = None
             self.notes = {}
+            self.prefer = []
             self.solver = z3.Solver()
             self.solver.set('timeout', self.timeout_ms)
             Engine.cur = self
@@ -280,6 +298,11 @@ class Engine:
             regions = [(fid, reg) for fid, reg in regions if not isinstance(reg, bool) or reg]
             excl = [z3.Not(reg) if not isinstance(reg, bool) else z3.BoolVal(not reg) for _, reg in regions]
             r, m = self._check(neg, *excl)
+            if r == z3.sat and self.prefer:
+                # the harness prefers counterexamples away from abstraction slack (e.g. test points far from every edge)
+                rp, mp = self._check(neg, *(excl + list(self.prefer)))
+                if rp == z3.sat:
+                    m = mp
             if r == z3.unsat and len(self.smt2_samples) < self.keep_smt2:
                 self.solver.push()
                 self.solver.add(neg, *excl)
@@ -434,7 +457,6 @@ def any_of(xs):
 
 class Sym:
     __slots__ = ('t',)
-    __array_priority__ = 1000
 
     def __init__(self, t):
         self.t = t
